@@ -1,7 +1,10 @@
+import BigtoolsModel.WriteGenBBI
+import BigtoolsModel.WriteGenWig
+import BigtoolsModel.WriteGenTB
 import BigtoolsModel.FileOf
 import BigtoolsModel.Codec
 import BigtoolsModel.Compressed
-import BigtoolsModel.AtomsGen
+import BigtoolsModel.AtomsCut
 import BigtoolsModel.OverlapsGen
 import BigtoolsModel.WriterSections
 /-! # C01 — bigWig write/read round trip
@@ -155,3 +158,13 @@ theorem C01_data_sections_fit_the_16_bit_item_count (ips chrom fuel : Nat) (vs :
   data_sections_fit_u16 ips chrom fuel vs es
 
 end BW
+
+/-- **Tie to the source: whole buffers reach every destination** (the bigWig writer's sections, headers and indexes). The models append whole buffers to the
+    destination. `std::io::Write::write` may accept any non-empty prefix; `write_all` loops until nothing is left
+    (`WA.writeAll_delivers`: for every destination that takes at least one byte per call), a bare `write` delivers the buffer only
+    if the destination takes all of it at once (`WA.write_delivers_iff`). The lists of bare `write` calls in the source files this writer goes through,
+    regenerated from /repo on every run, are empty — so the models' appends are what a short-writing destination receives. -/
+theorem C01_source_buffers_reach_every_destination_whole (s : WA.Sink) (h : 0 < s.take) (bufs : List (List Nat)) :
+    (Gen.wr_bare_write_bbiwrite = [] ∧ Gen.wr_bare_write_bigwigwrite = [] ∧ Gen.wr_bare_write_tempfilebuffer = []) ∧ (bufs.foldl WA.writeAll s).data = s.data ++ bufs.flatten ∧
+    (∀ buf, (s.write buf).1.data = s.data ++ buf ↔ buf.length ≤ s.take) :=
+  ⟨⟨WA.gen_no_bare_write_bbiwrite, WA.gen_no_bare_write_bigwigwrite, WA.gen_no_bare_write_tempfilebuffer⟩, WA.writeAll_sequence s h bufs, fun buf => WA.write_delivers_iff s buf⟩
